@@ -129,7 +129,18 @@ func Dot(spec *Spec, w io.WriteCloser, fromNode, toNode string) error {
 		}
 		log.Printf("  processing %s branches: %d", name, len(n.Branches.Branches))
 		for i, b := range n.Branches.Branches {
-			if err := node(b.Target, nodes[b.Target]); err != nil {
+			if target, known := nodes[b.Target]; !known {
+				// A missing target or a branch target
+				// variable ("@var").  Draw a placeholder,
+				// and carry on with the other branches
+				// (we used to give up on this node here,
+				// losing the rest of its edges).
+				if _, already := seen[b.Target]; !already {
+					seen[b.Target] = true
+					fmt.Fprintf(w, "  %s [shape=\"plaintext\", style=\"dashed\", color=\"gray\", fillcolor=\"white\", label=<%s> ]\n",
+						b.Target, b.Target)
+				}
+			} else if err := node(b.Target, target); err != nil {
 				log.Printf("process branch error with %s: %v", b.Target, err)
 				return err
 			}
